@@ -68,9 +68,11 @@ PLAN = {
     "C05": {
         "quick": [
             {"run": "TestC05_Cache", "checks": 1500},
+            {"run": "TestC05_Overflow", "checks": 4},
         ],
         "thorough": [
             {"run": "TestC05_Cache", "checks": 180000, "shards": 16, "timeout": 7200},
+            {"run": "TestC05_Overflow", "checks": 200, "shards": 4, "timeout": 7200},
         ],
     },
     "C06": {
